@@ -321,6 +321,71 @@ pub fn worker(tier: &str, k: usize, n: usize, ctx: &mut Ctx) {
       check_pair(ctx, &ex.states[i], &ex.states[j]);
     }
   }
+  segmentation_pairs(tier, k, n, ctx);
+}
+
+/// Every way of cutting a text into pieces (on char boundaries), built with from_iter and with add:
+/// every ordered pair of segmentations of the SAME text must compare equal (and agree on
+/// starts_with), every pair over two texts of the same length that differ in one character must
+/// compare unequal - whatever the number of pieces on either side.
+pub fn segmentation_pairs(tier: &str, k: usize, n: usize, ctx: &mut Ctx) {
+  let texts: &[&str] = if tier == "thorough" { &["abcde", "a\nbé𝒳", "ab\ncd\n"] } else { &["abcd", "a\né𝒳"] };
+  let mut c = 0usize;
+  for text in texts {
+    let bs = boundaries(text);
+    let inner: Vec<usize> = bs[1..bs.len() - 1].to_vec();
+    let cuts_of = |mask: u32| -> Vec<&str> {
+      let mut v = Vec::new();
+      let mut from = 0;
+      for (i, &b) in inner.iter().enumerate() {
+        if mask & (1 << i) != 0 {
+          v.push(&text[from..b]);
+          from = b;
+        }
+      }
+      v.push(&text[from..]);
+      v
+    };
+    // the same text with its last / first character replaced by another of the same byte length
+    let other_last = format!("{}{}", &text[..bs[bs.len() - 2]], if text.ends_with('\n') { "x" } else if text.ends_with('𝒳') { "𝒴" } else { "z" });
+    let nmasks = 1u32 << inner.len();
+    for m1 in 0..nmasks {
+      for m2 in 0..nmasks {
+        c += 1;
+        if c % n != k {
+          continue;
+        }
+        let (p1, p2) = (cuts_of(m1), cuts_of(m2));
+        let prog = format!("from_iter({p1:?}) vs from_iter({p2:?})");
+        crate::set_current_desc(json!({"program": prog}).to_string());
+        ctx.evaluations += 1;
+        ctx.states += 1;
+        ctx.transitions += 4;
+        let r1 = Rope::from_iter(p1.iter().copied());
+        let mut r2 = Rope::new();
+        for p in &p2 {
+          r2.add(p);
+        }
+        match guarded(|| (r1 == r2, r2 == r1, r1.starts_with(&r2))) {
+          Ok((true, true, true)) => {}
+          Ok(got) => report(ctx, "eq_rope_segmentations", &prog, format!("same text {text:?} cut differently: (a==b, b==a, a.starts_with(b)) = {got:?}")),
+          Err(e) => report(ctx, "eq_rope_panic", &prog, format!("panicked: {e}")),
+        }
+        // against the other text, cut the same way as p2 where possible (same byte lengths)
+        let mut r3 = Rope::new();
+        let mut from = 0;
+        for p in &p2 {
+          r3.add(&other_last[from..from + p.len()]);
+          from += p.len();
+        }
+        match guarded(|| (r1 == r3, r3 == r1)) {
+          Ok((false, false)) => {}
+          Ok(got) => report(ctx, "eq_rope_segmentations", &prog, format!("{text:?} vs {other_last:?}: (a==b, b==a) = {got:?}")),
+          Err(e) => report(ctx, "eq_rope_panic", &prog, format!("panicked: {e}")),
+        }
+      }
+    }
+  }
 }
 
 pub fn bounds(tier: &str) -> Value {
